@@ -379,7 +379,14 @@ func TestVerif_C12(t *testing.T) {
 		basicCoq := "None"
 		if basic != nil {
 			req.SetBasicAuth(basic[0], basic[1])
-			basicCoq = fmt.Sprintf("Some (%s, %s)", coqStr(basic[0]), coqStr(basic[1]))
+			// the model takes the credentials after url.QueryUnescape (kept raw when that fails)
+			un := func(v string) string {
+				if u, err := url.QueryUnescape(v); err == nil {
+					return u
+				}
+				return v
+			}
+			basicCoq = fmt.Sprintf("Some (%s, %s)", coqStr(un(basic[0])), coqStr(un(basic[1])))
 		}
 		s0 := time.Now().UnixNano()
 		rr, _ := env.serve(req)
@@ -425,6 +432,59 @@ func TestVerif_C12(t *testing.T) {
 		single("PKCE client: header with empty password, right verifier", "POST", cb, mb, "authorization_code", c12RedirectSame, c12V, []string{c04ClientB, ""}, "", "", "")
 		single("PKCE client: challenge sealed under another nonce", "POST", cbn, mbn, "authorization_code", c12RedirectSame, c12V, nil, c04ClientB, "", "pkce-not-matched")
 		single("PKCE client: verifier = the S256 challenge itself", "POST", cb, mb, "authorization_code", c12RedirectSame, c12S256(c12V), nil, c04ClientB, "", "pkce-not-matched")
+		// near misses of the two string comparisons
+		for _, sec := range []string{strings.ToUpper(c04SecretA), c04SecretA[:len(c04SecretA)-1], c04SecretA + "x", " " + c04SecretA, c04SecretA + "\x00", url.QueryEscape(url.QueryEscape(c04SecretA))} {
+			single(fmt.Sprintf("client with secret: near-miss secret %q in header", sec), "POST", ca, ma, "authorization_code", c12RedirectSame, "", []string{c04ClientA, url.QueryEscape(sec)}, "", "", "secret-not-shown")
+			single(fmt.Sprintf("client with secret: near-miss secret %q in form", sec), "POST", ca, ma, "authorization_code", c12RedirectSame, "", nil, c04ClientA, sec, "secret-not-shown")
+		}
+		for _, v := range []string{strings.ToUpper(c12V), c12V[:len(c12V)-1], c12V + "x", " " + c12V, c12S256(c12V)[:42]} {
+			single(fmt.Sprintf("PKCE client: near-miss verifier %q", v), "POST", cb, mb, "authorization_code", c12RedirectSame, v, nil, c04ClientB, "", "pkce-not-matched")
+		}
+		for _, rdr := range []string{c12RedirectSame + "/", strings.ToUpper(c12RedirectSame), c12RedirectSame[:len(c12RedirectSame)-1], c12RedirectSame + "?x=1", "https://rp.apps.example/cb/../cb"} {
+			single(fmt.Sprintf("near-miss redirect %q", rdr), "POST", ca, ma, "authorization_code", rdr, "", []string{c04ClientA, c04SecretA}, "", "", "redirect-differs")
+		}
+		for _, id := range []string{strings.ToUpper(c04ClientA), c04ClientA + " ", c04ClientA[:len(c04ClientA)-1]} {
+			single(fmt.Sprintf("near-miss client id %q", id), "POST", ca, ma, "authorization_code", c12RedirectSame, "", []string{url.QueryEscape(id), url.QueryEscape(c04SecretA)}, "", "", "unknown-client")
+		}
+		// seeded random one-byte changes of each compared string (thorough: 400 each)
+		{
+			rng := verifRand()
+			n := 12
+			if verifThorough() {
+				n = 400
+			}
+			flip := func(v string) string {
+				b := []byte(v)
+				switch rng.Intn(4) {
+				case 0:
+					b[rng.Intn(len(b))] ^= byte(1 << uint(rng.Intn(7)))
+				case 1:
+					i := rng.Intn(len(b))
+					b = append(b[:i], b[i+1:]...)
+				case 2:
+					i := rng.Intn(len(b) + 1)
+					b = append(b[:i], append([]byte{byte(33 + rng.Intn(90))}, b[i:]...)...)
+				default:
+					i, j := rng.Intn(len(b)), rng.Intn(len(b))
+					b[i], b[j] = b[j], b[i]
+				}
+				return string(b)
+			}
+			for i := 0; i < n; i++ {
+				if sec := flip(c04SecretA); sec != c04SecretA {
+					single(fmt.Sprintf("random near-miss secret %q", sec), "POST", ca, ma, "authorization_code", c12RedirectSame, "", nil, c04ClientA, sec, "secret-not-shown")
+				}
+				if v := flip(c12V); v != c12V {
+					single(fmt.Sprintf("random near-miss verifier %q", v), "POST", cb, mb, "authorization_code", c12RedirectSame, v, nil, c04ClientB, "", "pkce-not-matched")
+				}
+				if rdr := flip(c12RedirectSame); rdr != c12RedirectSame {
+					single(fmt.Sprintf("random near-miss redirect %q", rdr), "POST", ca, ma, "authorization_code", rdr, "", nil, c04ClientA, c04SecretA, "redirect-differs")
+				}
+				if id := flip(c04ClientA); id != c04ClientA && id != c04ClientB {
+					single(fmt.Sprintf("random near-miss client id %q", id), "POST", ca, ma, "authorization_code", c12RedirectSame, "", nil, id, c04SecretA, "unknown-client")
+				}
+			}
+		}
 		single("client with secret: the secret of nobody, verifier of B's code", "POST", cb, mb, "authorization_code", c12RedirectSame, c12V, nil, c04ClientA, "", "code-of-other-client")
 	}
 
